@@ -17,6 +17,7 @@ type straceHit struct {
 	Syscall   string
 	Path      string // resolved, cleaned
 	Line      string
+	Noise     bool // system path read by the process runtime (libc/Go runtime on thread start), not a path the world contains
 	ParentDir bool // read-only open of base's parent (what os.RemoveAll(base) does before unlinkat(parent, "base"))
 }
 
@@ -297,6 +298,14 @@ func parseStrace(file, chrootHost, base, cwd string) ([]straceHit, straceStats, 
 			}
 			if !(c == base || strings.HasPrefix(c, base+"/")) {
 				h := straceHit{Mark: cur, Syscall: name, Path: c, Line: line}
+				for _, pre := range []string{"/sys/", "/proc/", "/dev/", "/etc/"} {
+					// e.g. glibc's get_nprocs (/sys/devices/system/cpu/online, /proc/stat) when a new thread
+					// starts while an operation runs; the enumerated paths never begin with these names and
+					// the world contains none of them
+					if strings.HasPrefix(c, pre) {
+						h.Noise = true
+					}
+				}
 				if (name == "open" || name == "openat") && c == parent && strings.Contains(argstr, "O_RDONLY") &&
 					!strings.Contains(argstr, "O_CREAT") && !strings.Contains(argstr, "O_TRUNC") && !strings.Contains(argstr, "O_TMPFILE") {
 					h.ParentDir = true
